@@ -14,11 +14,16 @@ pub trait Prop: Sync {
 
 pub mod c09;
 pub mod c19;
+pub mod tree;
 
 pub fn lookup(id: &str) -> Option<Box<dyn Prop>> {
     match id {
         "C09" => Some(Box::new(c09::C09)),
         "C19" => Some(Box::new(c19::C19)),
+        "C06" => Some(Box::new(tree::TreeProp(tree::Focus::C06))),
+        "C07" => Some(Box::new(tree::TreeProp(tree::Focus::C07))),
+        "C08" => Some(Box::new(tree::TreeProp(tree::Focus::C08))),
+        "C15" => Some(Box::new(tree::TreeProp(tree::Focus::C15))),
         _ => None,
     }
 }
